@@ -37,7 +37,8 @@ const P: &str = "C16";
 // -------------------------------------------------------------- the service
 
 /// What a request asks the stub service to do, encoded in its first label:
-/// `k<k>-n<records>-s<txt size>-m<responses>-d<delay ms>-e<error>`.
+/// `k<k>-n<records>-s<txt size>-m<responses>-d<delay ms>-e<error>-p<section>`
+/// (section: 0 answer, 1 authority, 2 additional).
 #[derive(Clone, Copy, Debug, PartialEq)]
 struct Ask {
     k: u32,
@@ -46,14 +47,15 @@ struct Ask {
     m: u32,
     d: u32,
     e: u32,
+    p: u32,
 }
 
 impl Ask {
     fn label(&self) -> String {
-        format!("k{}-n{}-s{}-m{}-d{}-e{}", self.k, self.n, self.s, self.m, self.d, self.e)
+        format!("k{}-n{}-s{}-m{}-d{}-e{}-p{}", self.k, self.n, self.s, self.m, self.d, self.e, self.p)
     }
     fn parse(label: &str) -> Option<Ask> {
-        let mut a = Ask { k: 0, n: 0, s: 0, m: 1, d: 0, e: 0 };
+        let mut a = Ask { k: 0, n: 0, s: 0, m: 1, d: 0, e: 0, p: 0 };
         for part in label.split('-') {
             if part.is_empty() || !part.is_char_boundary(1) {
                 return None;
@@ -67,6 +69,7 @@ impl Ask {
                 "m" => a.m = v,
                 "d" => a.d = v,
                 "e" => a.e = v,
+                "p" => a.p = v,
                 _ => return None,
             }
         }
@@ -85,25 +88,58 @@ impl Ask {
 #[derive(Clone)]
 struct SimService;
 
+thread_local! {
+    /// When the service handed back its response (stream) for request k.
+    static PRODUCED: RefCell<BTreeMap<u32, u64>> = const { RefCell::new(BTreeMap::new()) };
+    /// The request `mk_request` built last is one a middleware answers in
+    /// the service's place (EDNS version 1): one reply.
+    static LAST_REQ_SHORT: std::cell::Cell<bool> = const { std::cell::Cell::new(false) };
+    /// When `StreamServer::shutdown()` was called in this run, if it was.
+    static SHUTDOWN_NS: std::cell::Cell<Option<u64>> = const { std::cell::Cell::new(None) };
+}
+
 type SvcStream = Pin<Box<dyn Stream<Item = ServiceResult<Vec<u8>>> + Send>>;
 
 fn build_response(req: &Message<Vec<u8>>, ask: &Ask, j: u32) -> domain::base::message_builder::AdditionalBuilder<domain::base::StreamTarget<Vec<u8>>> {
     let builder = mk_builder_for_target::<Vec<u8>>();
     let mut ab = builder.start_answer(req, Rcode::NOERROR).expect("start_answer");
-    if let Ok(q) = req.sole_question() {
-        for i in 0..ask.n {
+    let texts: Vec<Txt<Vec<u8>>> = (0..ask.n)
+        .map(|i| {
             let mut text = format!("k{}r{}i{}:", ask.k, j, i).into_bytes();
             while (text.len() as u32) < ask.s.max(1).min(255) {
                 text.push(b'x');
             }
             text.truncate(255);
-            let txt = Txt::<Vec<u8>>::build_from_slice(&text).expect("txt");
-            if ab.push((q.qname(), Class::IN, Ttl::from_secs(60), txt)).is_err() {
+            Txt::<Vec<u8>>::build_from_slice(&text).expect("txt")
+        })
+        .collect();
+    let q = req.sole_question().ok();
+    // The records go to the section the request names (a referral or a
+    // negative answer has all its bulk outside the answer section).
+    if let (Some(q), 0) = (&q, ask.p) {
+        for txt in &texts {
+            if ab.push((q.qname(), Class::IN, Ttl::from_secs(60), txt.clone())).is_err() {
                 break;
             }
         }
     }
-    ab.additional()
+    let mut au = ab.authority();
+    if let (Some(q), 1) = (&q, ask.p) {
+        for txt in &texts {
+            if au.push((q.qname(), Class::IN, Ttl::from_secs(60), txt.clone())).is_err() {
+                break;
+            }
+        }
+    }
+    let mut ad = au.additional();
+    if let (Some(q), 2) = (&q, ask.p) {
+        for txt in &texts {
+            if ad.push((q.qname(), Class::IN, Ttl::from_secs(60), txt.clone())).is_err() {
+                break;
+            }
+        }
+    }
+    ad
 }
 
 impl Service<Vec<u8>, ()> for SimService {
@@ -133,6 +169,7 @@ impl Service<Vec<u8>, ()> for SimService {
                 tokio::time::sleep(Duration::from_millis(ask.d as u64)).await;
                 sim::sync_clock();
             }
+            PRODUCED.with(|p| p.borrow_mut().insert(ask.k, sim::now_ns()));
             match ask.e {
                 1 => return Box::pin(futures_util::stream::once(std::future::ready(Err(ServiceError::Refused)))) as SvcStream,
                 2 => return Box::pin(futures_util::stream::once(std::future::ready(Err(ServiceError::FormatError)))) as SvcStream,
@@ -169,9 +206,22 @@ struct Sent {
     client: usize,
     conn: usize,
     sent_ns: u64,
+    /// A middleware answers this request itself with one (error) reply.
+    short: bool,
     /// The connection this request went over was disturbed by the client
     /// (abort, stall beyond the write timeout, burst beyond the queue).
     excused: Option<&'static str>,
+}
+
+impl Sent {
+    /// Responses the server owes for this request.
+    fn expects(&self) -> u32 {
+        if self.short {
+            1
+        } else {
+            self.ask.produces()
+        }
+    }
 }
 
 #[derive(Default)]
@@ -194,8 +244,9 @@ fn mk_request(ask: &Ask, id: u16, edns: Option<u16>, dnssec_ok: bool) -> Vec<u8>
     let mut mb = MessageBuilder::new_vec();
     mb.header_mut().set_id(id);
     mb.header_mut().set_rd(true);
-    // Now and then an opcode the server does not implement (answered NOTIMP
-    // by the mandatory middleware, still exactly one response).
+    LAST_REQ_SHORT.with(|c| c.set(false));
+    // Now and then another opcode (only IQUERY is refused by the mandatory
+    // middleware; these reach the service like a query does).
     if sim::chance("req.other_opcode", 1, 16) {
         mb.header_mut().set_opcode(*sim::pick("req.opcode", &[domain::base::iana::Opcode::STATUS, domain::base::iana::Opcode::NOTIFY, domain::base::iana::Opcode::UPDATE]));
         sim::stat("probe.request_with_other_opcode");
@@ -228,6 +279,7 @@ fn mk_request(ask: &Ask, id: u16, edns: Option<u16>, dnssec_ok: bool) -> Vec<u8>
         let edns_v1 = sim::chance("req.edns_version_1", 1, 16);
         if edns_v1 {
             sim::stat("probe.request_with_edns_version_1");
+            LAST_REQ_SHORT.with(|c| c.set(true));
         }
         // An edns-tcp-keepalive option (meaningless, but harmless, over UDP).
         let keepalive = sim::chance("req.keepalive", 1, 6);
@@ -269,7 +321,8 @@ fn gen_ask(k: u32, udp: bool) -> Ask {
         _ => 50 + sim::draw("ask.delay_long", 200) as u32,
     };
     let e = if sim::chance("ask.err", 1, 8) { 1 + sim::draw("ask.err_kind", 4) as u32 } else { 0 };
-    Ask { k, n, s, m, d, e }
+    let p = if sim::chance("ask.other_section", 1, 5) { 1 + sim::draw("ask.section", 2) as u32 } else { 0 };
+    Ask { k, n, s, m, d, e, p }
 }
 
 fn gen_edns() -> Option<u16> {
@@ -294,13 +347,13 @@ fn hostile_payload() -> (Vec<u8>, &'static str) {
         }
         1 => {
             // A response (QR=1).
-            let mut b = mk_request(&Ask { k: 9999, n: 0, s: 0, m: 1, d: 0, e: 0 }, 60077, None, false);
+            let mut b = mk_request(&Ask { k: 9999, n: 0, s: 0, m: 1, d: 0, e: 0, p: 0 }, 60077, None, false);
             b[2] |= 0x80;
             (b, "fault.hostile_qr1")
         }
         2 => {
             // Counts that lie.
-            let mut b = mk_request(&Ask { k: 9998, n: 0, s: 0, m: 1, d: 0, e: 0 }, 60078, None, false);
+            let mut b = mk_request(&Ask { k: 9998, n: 0, s: 0, m: 1, d: 0, e: 0, p: 0 }, 60078, None, false);
             b[4..6].copy_from_slice(&(sim::draw("hostile.qd", 65536) as u16).to_be_bytes());
             b[6..8].copy_from_slice(&(sim::draw("hostile.an", 65536) as u16).to_be_bytes());
             (b, "fault.hostile_counts")
@@ -315,7 +368,7 @@ fn hostile_payload() -> (Vec<u8>, &'static str) {
         }
         4 => {
             // Truncated message.
-            let mut b = mk_request(&Ask { k: 9997, n: 0, s: 0, m: 1, d: 0, e: 0 }, 60079, Some(1232), false);
+            let mut b = mk_request(&Ask { k: 9997, n: 0, s: 0, m: 1, d: 0, e: 0, p: 0 }, 60079, Some(1232), false);
             let keep = 1 + sim::draw("hostile.trunc", b.len() as u64 - 1) as usize;
             b.truncate(keep);
             (b, "fault.hostile_truncated")
@@ -396,6 +449,7 @@ async fn udp_client(led: Led, udp: UdpNet, server: std::net::SocketAddr, client:
             id,
             edns,
             udp: true,
+            short: LAST_REQ_SHORT.with(|c| c.get()),
             client,
             conn: 0,
             sent_ns: sim::now_ns(),
@@ -499,7 +553,7 @@ async fn conn_reader(led: Led, st: Rc<RefCell<ConnState>>, mut rd: tokio::io::Re
                 if let Some(idx) = (first_idx..l.sent.len()).find(|i| l.sent[*i].client == client && l.sent[*i].conn == conn && l.sent[*i].id == id) {
                     let c = counts.entry(idx).or_insert(0);
                     *c += 1;
-                    if *c >= l.sent[idx].ask.produces() {
+                    if *c >= l.sent[idx].expects() {
                         st.borrow_mut().outstanding.retain(|x| *x != idx);
                     }
                 }
@@ -513,6 +567,10 @@ async fn conn_reader(led: Led, st: Rc<RefCell<ConnState>>, mut rd: tokio::io::Re
         led.borrow_mut().misframed.push(format!("client{} conn{}: {} stray octets on a live connection", client, conn, inbuf.len()));
     }
 }
+
+/// How long a client waits for the server to take its octets (a connection
+/// nobody accepts or reads any more must not hang the client).
+const WRITE_PATIENCE: Duration = Duration::from_secs(100);
 
 #[allow(clippy::too_many_arguments)]
 async fn stream_client(exec: Exec, led: Led, listener: SimListener, client: usize, n_conns: u32, k0: u32, knobs: StreamKnobs, hostile_ok: bool) {
@@ -611,7 +669,8 @@ async fn stream_client(exec: Exec, led: Led, listener: SimListener, client: usiz
             let edns = if sim::chance("tcp.edns", 1, 2) { Some(1232) } else { None };
             let id = (k % 60000) as u16;
             let bytes = mk_request(&ask, id, edns, false);
-            ev!("tcp client{} conn{} queues k={} id={} ask={:?}", client, conn, ask.k, id, ask);
+            let short = LAST_REQ_SHORT.with(|c| c.get());
+            ev!("tcp client{} conn{} queues k={} id={} ask={:?}{}", client, conn, ask.k, id, ask, if short { " (EDNS version 1: answered by the middleware)" } else { "" });
             let idx = {
                 let mut l = led.borrow_mut();
                 l.sent.push(Sent {
@@ -619,6 +678,7 @@ async fn stream_client(exec: Exec, led: Led, listener: SimListener, client: usiz
                     id,
                     edns,
                     udp: false,
+                    short,
                     client,
                     conn,
                     sent_ns: sim::now_ns(),
@@ -626,14 +686,14 @@ async fn stream_client(exec: Exec, led: Led, listener: SimListener, client: usiz
                 });
                 l.sent.len() - 1
             };
-            if ask.produces() > 0 {
+            if short || ask.produces() > 0 {
                 st.borrow_mut().outstanding.push(idx);
             }
             // More in flight than the server's response queue holds: the
             // documented policy is to discard what does not fit.
             {
                 let stl = st.borrow();
-                let in_flight: u32 = stl.outstanding.iter().map(|i| led.borrow().sent[*i].ask.produces()).sum();
+                let in_flight: u32 = stl.outstanding.iter().map(|i| led.borrow().sent[*i].expects()).sum();
                 if stl.outstanding.len() > knobs.max_queued || in_flight as usize > knobs.max_queued {
                     sim::stat("probe.in_flight_exceeds_response_queue");
                     let mut l = led.borrow_mut();
@@ -645,8 +705,17 @@ async fn stream_client(exec: Exec, led: Led, listener: SimListener, client: usiz
             out.extend_from_slice(&dns::frame(&bytes));
             k += 1;
             if mode != 0 {
-                if wr.write_all(&out).await.is_err() {
-                    break;
+                match tokio::time::timeout(WRITE_PATIENCE, wr.write_all(&out)).await {
+                    Ok(Ok(())) => {}
+                    Ok(Err(_)) => break,
+                    Err(_) => {
+                        // Part of the octets may be out: the connection is
+                        // of no further use to this client.
+                        sim::stat("probe.client_gave_up_writing");
+                        out.clear();
+                        aborted = true;
+                        break;
+                    }
                 }
                 out.clear();
                 if !slow_reader && !junk_sent && sim::chance("tcp.quiet_period", 1, 10) {
@@ -687,17 +756,25 @@ async fn stream_client(exec: Exec, led: Led, listener: SimListener, client: usiz
                 }
             }
         }
+        let mut gave_up = false;
         if !out.is_empty() {
             // One burst; possibly split at an arbitrary octet with a pause
             // (a request only partly received for a while).
             if sim::chance("tcp.split_write", 1, 2) && out.len() > 2 {
                 let cut = 1 + sim::draw("tcp.split_at", out.len() as u64 - 1) as usize;
-                let _ = wr.write_all(&out[..cut]).await;
                 sim::stat("probe.request_split_across_writes");
-                sim::sleep_ms(1 + sim::draw("tcp.split_pause", 30)).await;
-                let _ = wr.write_all(&out[cut..]).await;
+                if tokio::time::timeout(WRITE_PATIENCE, wr.write_all(&out[..cut])).await.is_err() {
+                    gave_up = true;
+                } else {
+                    sim::sleep_ms(1 + sim::draw("tcp.split_pause", 30)).await;
+                    gave_up = tokio::time::timeout(WRITE_PATIENCE, wr.write_all(&out[cut..])).await.is_err();
+                }
             } else {
-                let _ = wr.write_all(&out).await;
+                gave_up = tokio::time::timeout(WRITE_PATIENCE, wr.write_all(&out)).await.is_err();
+            }
+            if gave_up {
+                sim::stat("probe.client_gave_up_writing");
+                aborted = true;
             }
         }
         {
@@ -730,7 +807,7 @@ async fn stream_client(exec: Exec, led: Led, listener: SimListener, client: usiz
         st.borrow_mut().last_write_ns = sim::now_ns();
         st.borrow_mut().writer_done = true;
         reader.join().await;
-        let _ = wr.shutdown().await;
+        let _ = tokio::time::timeout(WRITE_PATIENCE, wr.shutdown()).await;
     }
     let _ = Cut::Fin;
 }
@@ -794,6 +871,8 @@ async fn run(_tier: Tier) {
     let use_cookies = sim::chance("cfg.cookies", 1, 3);
     ev!("cfg max_response_size={:?} max_queued={} write_timeout={}ms cookies={} hostile={}", max_response_size, knobs.max_queued, knobs.write_timeout_ms, use_cookies, hostile);
 
+    PRODUCED.with(|p| p.borrow_mut().clear());
+    SHUTDOWN_NS.with(|c| c.set(None));
     let udp = UdpNet::new();
     let server_addr = addr(1, 53);
     let server_sock = udp.bind(server_addr);
@@ -848,6 +927,21 @@ async fn run(_tier: Tier) {
                         ev!("stream server reconfigure()");
                         let _ = s3.reconfigure(cfg.clone());
                     }
+                });
+            }
+            // The stream server is shut down mid-run: what the service had
+            // produced by then is still written ("pending responses will be
+            // written as long as the client side remains operational").
+            if sim::chance("cfg.shutdown", 1, 6) {
+                let at = 1 + sim::draw("cfg.shutdown_at_ms", 160);
+                let s4 = ssrv.clone();
+                tokio::spawn(async move {
+                    tokio::time::sleep(Duration::from_millis(at)).await;
+                    sim::sync_clock();
+                    sim::stat("fault.stream_server_shutdown");
+                    ev!("stream server shutdown()");
+                    SHUTDOWN_NS.with(|c| c.set(Some(sim::now_ns())));
+                    let _ = s4.shutdown();
                 });
             }
             // The datagram server gets a different response size limit
@@ -953,7 +1047,7 @@ async fn run(_tier: Tier) {
 fn txt_tags(v: &dns::View) -> Vec<String> {
     v.recs
         .iter()
-        .filter(|r| r.section == 1 && r.rtype == Rtype::TXT)
+        .filter(|r| r.rtype == Rtype::TXT)
         .map(|r| r.rdata.trim_matches('"').split(':').next().unwrap_or("").to_string())
         .collect()
 }
@@ -1077,7 +1171,7 @@ fn check(led: &Led, max_response_size: Option<u16>, junk: &[Vec<u8>]) {
                     return;
                 }
             }
-            let n_txt = v.recs.iter().filter(|r| r.section == 1).count() as u32;
+            let n_txt = v.recs.iter().filter(|r| r.section == 1 + s.ask.p as u8 && r.rtype == Rtype::TXT).count() as u32;
             if s.ask.e == 0 && v.full_rcode == 0 && n_txt < s.ask.n && !v.tc {
                 if sim::violation(P, "udp-size", "content-dropped-without-tc", format!("response to k={} has {} of {} records and TC=0", s.ask.k, n_txt, s.ask.n)) {
                     return;
@@ -1119,7 +1213,23 @@ fn check(led: &Led, max_response_size: Option<u16>, junk: &[Vec<u8>]) {
                         continue;
                     }
                 }
-                None => format!("response-lost/{}", if s.udp { "udp" } else { "stream" }),
+                None => {
+                    let shut = SHUTDOWN_NS.with(|c| c.get());
+                    match shut {
+                        Some(t) if !s.udp => {
+                            // Owed all the same: a single response the
+                            // service had produced before the shutdown.
+                            let produced = PRODUCED.with(|p| p.borrow().get(&s.ask.k).copied());
+                            if s.ask.m <= 1 && produced.is_some_and(|tp| tp < t) {
+                                "response-lost/stream/produced-before-shutdown".to_string()
+                            } else {
+                                sim::stat("probe.loss_excused_by_shutdown");
+                                continue;
+                            }
+                        }
+                        _ => format!("response-lost/{}", if s.udp { "udp" } else { "stream" }),
+                    }
+                }
             };
             if sim::violation(
                 P,
